@@ -2184,7 +2184,10 @@ argument `default_label_format` (e.g. 'x{}').
                 yield default_label_format.format(varid)
                 varid += 1
             if isinstance(vg, SingletonVariableGroup):
-                yield vg.name
+                if vg.name is None:
+                    yield default_label_format.format(varid)
+                else:
+                    yield vg.name
                 varid += 1
                 continue
             yield from vg.label()
